@@ -261,7 +261,7 @@ func (e *enc) inline(x *ssa.Call, callee *ssa.Function, argVals []ssa.Value, arg
 // callEnv builds the spec environment of a callee contract at a call site.
 func (e *enc) callEnv(callee *ssa.Function, argVals []ssa.Value, args []Term) *specEnv {
 	fr := e.fr
-	env := &specEnv{e: e, fr: fr, pkg: callee.Pkg.Pkg, vars: map[string]tval{}, ptrLoc: map[string]*Loc{}, mem: e.mem}
+	env := &specEnv{e: e, fr: fr, pkg: callee.Pkg.Pkg, vars: map[string]tval{}, ptrLoc: map[string]*Loc{}, mem: e.mem, varLoc: map[string]*Loc{}}
 	for i, p := range callee.Params {
 		if i >= len(args) {
 			break
@@ -270,6 +270,11 @@ func (e *enc) callEnv(callee *ssa.Function, argVals []ssa.Value, args []Term) *s
 		if argVals != nil {
 			if l, ok := fr.loc[argVals[i]]; ok {
 				env.ptrLoc[p.Name()] = l
+			}
+			if _, isMap := p.Type().Underlying().(*types.Map); isMap {
+				if l, ok := fr.prov[argVals[i]]; ok {
+					env.varLoc[p.Name()] = l
+				}
 			}
 		}
 	}
@@ -369,6 +374,15 @@ func (e *enc) havocSpecLoc(env *specEnv, x SExpr) error {
 			}
 		}
 	case *SIdent:
+		if l, ok := env.varLoc[n.Name]; ok {
+			old := e.readIn(e.mem, l)
+			e.havocLoc(l)
+			// a map stays non-nil when it was non-nil (callees update, they cannot reassign the caller's map)
+			if strings.HasPrefix(l.sort, "Map_") {
+				e.assume(fmt.Sprintf("(= (nil_%s %s) (nil_%s %s))", l.sort, e.read(l), l.sort, old))
+			}
+			return nil
+		}
 		if env.pkg != nil {
 			if obj, ok := env.pkg.Scope().Lookup(n.Name).(*types.Var); ok {
 				_ = obj
